@@ -149,6 +149,6 @@ def _worker(arg):
 
 
 def run(ctx):
-    n = ctx.scale(160, 32000)
+    n = ctx.scale(128, 32000)
     ctx.pmap(_worker, [(subseed(ctx.seed, PID, w), n // 16) for w in range(16)])
     ctx.extra["excluded_by_option"] = dict(OPTIONS.excluded)
